@@ -45,7 +45,8 @@ cart_var_alloc (void)
 
 int
 cart_var_set (SF_PRIVATE *psf, const SF_CART_INFO * info, size_t datasize)
-{	size_t len ;
+{	SF_CART_INFO_16K *old = NULL ;
+	size_t len ;
 
 	if (info == NULL)
 		return SF_FALSE ;
@@ -61,9 +62,16 @@ cart_var_set (SF_PRIVATE *psf, const SF_CART_INFO * info, size_t datasize)
 		return SF_FALSE ;
 		} ;
 
+	/* Once audio is in the file the chunk is rewritten in place : keep the current one in case the new one differs in size. */
+	if (psf->have_written && psf->cart_16k != NULL)
+	{	old = psf->cart_16k ;
+		psf->cart_16k = NULL ;
+		} ;
+
 	if (psf->cart_16k == NULL)
 	{	if ((psf->cart_16k = cart_var_alloc ()) == NULL)
-		{	psf->error = SFE_MALLOC_FAILED ;
+		{	psf->cart_16k = old ;
+			psf->error = SFE_MALLOC_FAILED ;
 			return SF_FALSE ;
 			} ;
 		} ;
@@ -81,6 +89,14 @@ cart_var_set (SF_PRIVATE *psf, const SF_CART_INFO * info, size_t datasize)
 	len += (len & 1) ? 1 : 2 ;
 
 	psf->cart_16k->tag_text_size = (uint32_t) len ;
+
+	if (old != NULL && old->tag_text_size != psf->cart_16k->tag_text_size)
+	{	free (psf->cart_16k) ;
+		psf->cart_16k = old ;
+		psf->error = SFE_CMD_HAS_DATA ;
+		return SF_FALSE ;
+		} ;
+	free (old) ;
 
 	return SF_TRUE ;
 } /* cart_var_set */
